@@ -70,6 +70,12 @@ def _run_case(case):
     return {"case": case, "findings": findings, "info": info, "harness_error": err, "wall": time.time() - t0}
 
 
+def _run_corr(prop, seed, tier):
+    from harness import corr
+
+    return corr.run_for(prop, seed, tier)
+
+
 def write_replay(prop, payload):
     from harness.common import case_hash
 
@@ -109,8 +115,10 @@ def main():
         if case is None:
             print(f"replay names a broken obligation, no input: {json.dumps(payload.get('broken'))[:400]}")
             lr = leanstep.run_lean(prop)
-            if lr.ok:
-                print("obligations check again on the current tree")
+            with mp.get_context("fork").Pool(1) as cpool:
+                _, mism, _ = cpool.apply(_run_corr, (prop, seed, "quick"))
+            if lr.ok and not mism:
+                print("obligations and correspondences check again on the current tree")
                 return 0
             print(f"VIOLATION property={prop} replay={args.replay} no-failing-input-found")
             return 1
@@ -133,6 +141,22 @@ def main():
         lr = leanstep.LeanResult()
     else:
         lr = leanstep.run_lean(prop, thorough=(args.tier == "thorough"), log=lambda *a: None)
+    # ------------------------------------------------------------------ Tie B: executable model vs implementation
+    corr_summary, corr_errors = {}, []
+    if not args.no_lean or os.environ.get("VERIF_CORR") == "1":
+        # in a forked child: the parent must not touch numpy/dask threads before it forks the case workers
+        with mp.get_context("fork").Pool(1) as cpool:
+            corr_summary, mism, corr_errors = cpool.apply(_run_corr, (prop, seed, args.tier))
+        for name, sm in corr_summary.items():
+            st = "ok" if not sm.get("mismatches") and not sm.get("error") else ("error" if sm.get("error") else "broken")
+            lr.obligations.append({"name": "correspondence:" + name, "kind": "correspondence", "status": st, "compared": sm.get("compared", 0)})
+        by = {}
+        for mm in mism:
+            by.setdefault(mm["correspondence"], []).append(mm)
+        for name, lst in by.items():
+            lr.broken.append({"kind": "correspondence", "name": name, "output": json.dumps(lst[:5], indent=1, default=str)[-6000:]})
+        for e in corr_errors:
+            print("[harness-error] correspondence " + e[-1200:], file=sys.stderr)
     for b in lr.broken:
         print(f"[lean] BROKEN {b['kind']}: {b['name']}\n{b['output'][-1500:]}")
 
@@ -228,6 +252,8 @@ def main():
         print(f"KNOWN-FINDING: property={prop} {k['id']} {k['what']} [{n} case(s)]")
     for r in harness_errors[:3]:
         print("[harness-error]", json.dumps(r["case"], default=str)[:300], r["harness_error"][-800:], file=sys.stderr)
+    if corr_errors and exit_code == 0:
+        exit_code = 2
     if harness_errors and exit_code == 0:
         # infrastructure problem: not a violation
         if len(harness_errors) > max(2, len(results) // 10):
@@ -256,7 +282,8 @@ def main():
             "rule": getattr(mod, "RULE", "cases from the property's structured generator; distinct by generator key"),
             "samples": samples,
             "input_distribution": dist,
-            "correspondence": _sum_info(results, "corr"),
+            "correspondence": corr_summary,
+            "traces_validated_against_impl": sum(int(v.get("compared", 0)) for v in corr_summary.values()),
             "oracle_checks": _sum_info(results, "oracle_checks"),
             "known_findings_hit": {kid: n for kid, (k, n) in known_hits.items()},
             "harness_errors": len(harness_errors),
